@@ -3,6 +3,7 @@ import ast
 
 from .. import ordtype as O
 from ..loader import AnalysisError, attach_parents, norm_stmt
+from ..small import arms, find_ifs, ifexp_arms
 
 EST = "variogram/estimator.pyx"
 VAR = "variogram/variogram.py"
@@ -111,8 +112,9 @@ def preprocessing(ctx, rule="R09.2"):
     resh = [norm_stmt(s) for s in body if isinstance(s, ast.Assign) and "reshape((-1, pnt_cnt))" in norm_stmt(s)]
     ctx.check(resh == ["field = field.reshape((-1, pnt_cnt))"], rule, site, "fields are stacked as rows over the flattened point list", "stack")
     # ---- structured input is expanded like the point list
-    mt = idx_of(lambda s: isinstance(s, ast.If) and ast.unparse(s.test) == "mesh_type != 'unstructured'")
-    ok = mt is not None and any(norm_stmt(x) == "pos = generate_grid(pos)" for x in body[mt].body) and any("format_struct_pos_shape(pos, field.shape, check_stacked_shape=True)" in norm_stmt(x) for x in body[mt].body) and any("format_unstruct_pos_shape(pos, field.shape, check_stacked_shape=True)" in norm_stmt(x) for x in body[mt].orelse)
+    mt = idx_of(lambda s: isinstance(s, ast.If) and arms(s, "mesh_type != 'unstructured'") is not None)
+    st_arm, un_arm = arms(body[mt], "mesh_type != 'unstructured'") if mt is not None else ([], [])
+    ok = mt is not None and any(norm_stmt(x) == "pos = generate_grid(pos)" for x in st_arm) and any("format_struct_pos_shape(pos, field.shape, check_stacked_shape=True)" in norm_stmt(x) for x in st_arm) and any("format_unstruct_pos_shape(pos, field.shape, check_stacked_shape=True)" in norm_stmt(x) for x in un_arm)
     ctx.check(ok, rule, site, "a structured mesh is expanded to the equivalent point list (generate_grid) and then treated like unstructured input", "struct")
     # ---- normalisation call
     nc = body[i_norm].value
@@ -151,11 +153,12 @@ def directions(ctx, rule="R09.4"):
     if len(prep) != 1:
         raise AnalysisError("anchor vanished: directional preparation block")
     t = [norm_stmt(x) for x in prep[0].body]
-    ok = "norms = np.linalg.norm(direction, axis=1)" in t and "direction = np.divide(direction, norms[:, np.newaxis])" in t
+    ok = "norms = np.linalg.norm(direction, axis=1)" in t and "direction = direction / norms[:, np.newaxis]" in t
     ctx.check(ok, rule, site, "direction vectors are normalised to unit length before the kernel (which assumes normed directions)", "unit-dirs")
     ok = any(x.startswith("if np.any(np.isclose(norms, 0)): raise") for x in t)
     ctx.check(ok, rule, site, "zero-length directions raise", "zero-dir")
-    ok = "bandwidth = float(bandwidth) if bandwidth is not None else -1.0" in t and "angles_tol = float(angles_tol)" in t
+    bw = [ifexp_arms(x.value, "bandwidth is None") for x in prep[0].body if isinstance(x, ast.Assign) and ast.unparse(x.targets[0]) == "bandwidth"]
+    ok = len(bw) == 1 and bw[0] is not None and ast.unparse(bw[0][0]) == "-1.0" and ast.unparse(bw[0][1]) == "float(bandwidth)" and "angles_tol = float(angles_tol)" in t
     ctx.check(ok, rule, site, "no bandwidth given -> -1.0, the kernel's 'off' value (kernel tests bandwidth > 0)", "bandwidth-off")
     dt = prog.func("variogram/estimator.pyx", "dir_test")
     ctx.check(any(isinstance(s, ast.If) and ast.unparse(s.test) == "bandwidth > 0.0" for s in dt.body), rule, "variogram/estimator.pyx::dir_test", "band criterion is applied only for bandwidth > 0", "kernel-bandwidth")
